@@ -199,7 +199,8 @@ let cmd_subdiv t =
   Printf.printf "subdiv %s %s\n" id (outcome_str r show)
 
 (* planar: the verified planarity certificate (Cert13) on the model's own run of subdivide:
-   "1" accepted, "0" rejected, "-" the sweep did not return *)
+   "1" accepted, "0" rejected, "-" the sweep did not return; second token: the coverage certificate (Cert13Cover),
+   evaluated for sweeps that run to completion (Union, Xor), "-" otherwise *)
 let cmd_planar t =
   let id = next t in
   let prec = next t in
@@ -218,8 +219,13 @@ let cmd_planar t =
           | "64" -> Cert13.planar_64 (Obj.magic st) evs
           | "32" -> Cert13.planar_32 (Obj.magic st) evs
           | _ -> Cert13.planar_q (Obj.magic st) evs) in
-      b01 ok
-    | _ -> "-" in
+      let complete = (match op with Event.Union | Event.Xor -> true | _ -> false) in
+      let cov = if not complete then "-" else b01 (match prec with
+          | "64" -> Cert13Cover.cover_64 (Obj.magic a) (Obj.magic b) (Obj.magic st) evs
+          | "32" -> Cert13Cover.cover_32 (Obj.magic a) (Obj.magic b) (Obj.magic st) evs
+          | _ -> Cert13Cover.cover_q (Obj.magic a) (Obj.magic b) (Obj.magic st) evs) in
+      b01 ok ^ " " ^ cov
+    | _ -> "- -" in
   Printf.printf "planar %s %s\n" id verdict
 
 (* ---------- splay ---------- *)
@@ -347,6 +353,47 @@ let cmd_scene t =
      let sc = read_list t (read_region f) in
      Printf.printf "scene %s %s\n" id (if Scene.check_scene sc l then "true" else "false")
    with Nonfinite -> Printf.printf "scene %s nonfinite\n" id)
+
+(* cert14 (arguments as subdiv): the certificate Cert14 on the model's own run of subdivide: "1" / "0", "-" if the sweep
+   did not return *)
+let cmd_cert14 t =
+  let id = next t in
+  let prec = next t in
+  let f = fmt_of_string prec in
+  let cfg = cfg_of_string (next t) in
+  let budget = next_int t in
+  let op = op_of_string (next t) in
+  let a = BoolOp.as_slice f.num (read_operand f t) in
+  let b = BoolOp.as_slice f.num (read_operand f t) in
+  let fl = FillQueue.fill_queue f.num a b op in
+  let r = Subdivide.subdivide f.num cfg (nat_of_int budget) fl op in
+  let verdict =
+    match r with
+    | Outcome.Ok ((st, evs), _) ->
+      b01 (match prec with
+          | "64" -> Cert14.cert14_64 op (Obj.magic a) (Obj.magic b) (Obj.magic st) evs
+          | "32" -> Cert14.cert14_32 op (Obj.magic a) (Obj.magic b) (Obj.magic st) evs
+          | _ -> Cert14.cert14_q op (Obj.magic a) (Obj.magic b) (Obj.magic st) evs)
+    | _ -> "-" in
+  Printf.printf "cert14 %s %s\n" id verdict
+
+(* cert04 <id> <prec> <assembled 0|1> <n> (ax ay bx by subj)* <multipolygon>: the verified certificate Cert04.cert04 on
+   explicitly given input edges and a result (float coordinates converted exactly) *)
+let cmd_cert04 t =
+  let id = next t in
+  let f = fmt_of_string (next t) in
+  let assembled = next_int t = 1 in
+  (try
+     let rdq () = (try q_of_tok (next t) with Failure _ -> raise Nonfinite) in
+     let edges = read_list t (fun _ ->
+         let ax = rdq () in let ay = rdq () in let bx = rdq () in let by = rdq () in
+         let s = next_int t = 1 in
+         (((ax, ay), (bx, by)), s)) in
+     let pt _ = let x = rdq () in let y = rdq () in (x, y) in
+     let mp = read_list t (fun t -> read_list t (fun t -> read_list t pt)) in
+     ignore f;
+     Printf.printf "cert04 %s %s\n" id (b01 (Cert04.cert04 assembled (Obj.magic edges) (Obj.magic mp)))
+   with Nonfinite -> Printf.printf "cert04 %s nonfinite\n" id)
 
 (* ---------- orders, pairs, intersection step, decision table ---------- *)
 let cmp_chr = function Lt -> "L" | Gt -> "G" | Eq -> "E"
@@ -483,6 +530,8 @@ let () =
          | "planar" -> cmd_planar t
          | "splay" -> cmd_splay t
          | "scene" -> cmd_scene t
+         | "cert04" -> cmd_cert04 t
+         | "cert14" -> cmd_cert14 t
          | "orders" -> cmd_orders t
          | "pair" -> cmd_pair t
          | "pi" -> cmd_pi t
